@@ -13,6 +13,9 @@ F: after EVERY call, if the real `tracked_cursor_position` is not None it must e
    clipped/positioned against the true cursor (spec terminal's cursor before the call).
 Thorough tier: the same on the tty of a real tmux pane — tmux answers the queries and holds the
    true cursor; the specification terminal is compared with tmux on the same bytes too.
+Op `resize` (w, h): the pty's window size is changed (TIOCSWINSZ) and the object's reset() is called
+   (RIS).  From that reset on, the terminal is a fresh specification terminal of the new size fed with
+   the bytes written since; the model is stepped with the new size.
 Failing sequences are delta-debugged to minimal ones before they are reported.
 """
 from __future__ import annotations
@@ -99,6 +102,11 @@ def exec_real(gt, op) -> str:
         if k == "reset":
             gt.reset_by_scrolling = bool(op["rbs"])
             gt.reset()
+        elif k == "resize":
+            # the window size was changed by the caller of exec_real (TIOCSWINSZ); the library call of this step is the
+            # full reset (RIS) that follows every resize
+            gt.reset_by_scrolling = False
+            gt.reset()
         elif k == "mv":
             kw = {n: op[n] for n in ("right", "down", "left", "up") if op.get(n) is not None}
             gt.move_cursor(**kw)
@@ -183,6 +191,8 @@ def model_tokens(op, case, real_bytes: bytes, dims=(0, 0), lines=()):
     k = op["op"]
     if k == "reset":
         return f"reset {1 if op['rbs'] else 0}"
+    if k == "resize":
+        return "reset 0"
     if k == "mv":
         return f"mv {_o(op.get('right'))} {_o(op.get('down'))} {_o(op.get('left'))} {_o(op.get('up'))}"
     if k == "mva":
@@ -338,12 +348,20 @@ def eval_case(ctx: Ctx, case: dict, stats: bool = False):
     mism, viol = [], []
     diac = [ord(c) for c in phm.ROWCOLUMN_DIACRITICS]
 
+    # The window may be resized between calls (op "resize" = TIOCSWINSZ, then reset()).  A real resize reflows the
+    # screen, which Spec.Term does not model; the RIS written by that reset() clears the screen, homes the cursor and
+    # drops margins / saved cursor, so from there on the terminal IS a fresh specification terminal of the new size
+    # fed with the bytes written since (`base` = where they start).  F and the query replies use that terminal; K gives
+    # the model the new size (`step W H …`).
+    cur = {"w": w, "h": h, "base": 0}
     if backend == "tmux":
+        if any(op["op"] == "resize" for op in case["ops"]):
+            raise ToolFailure("histories with a resize run on the pty backend only")
         pt = _tmux_term(w, h)
         pt.fresh(force_placeholders=bool(case.get("force")))
     else:
         def responder(prefix: bytes) -> bytes:
-            return spec_term(d, w, h, prefix)["last"]
+            return spec_term(d, cur["w"], cur["h"], prefix[cur["base"]:])["last"]
 
         pt = ptyterm.PtyTerm(w, h, responder, force_placeholders=bool(case.get("force")), buffered_display=bool(case.get("buffered")))
     gt = pt.term
@@ -351,7 +369,18 @@ def eval_case(ctx: Ctx, case: dict, stats: bool = False):
         mstate = ("N", "0")
         model_ok = True
         for idx, op in enumerate(case["ops"]):
-            before = bytes(pt.log)
+            if op["op"] == "resize":
+                if not pt.wait_seen():
+                    raise ToolFailure("pty master did not receive everything that was written")
+                if stats:
+                    ctx.count("resize:" + ("same" if (op["w"], op["h"]) == (w, h) else
+                                           "grow" if op["w"] >= w and op["h"] >= h else
+                                           "shrink" if op["w"] <= w and op["h"] <= h else "mixed"))
+                pt.resize(op["w"], op["h"])
+                w, h = op["w"], op["h"]
+                cur.update(w=w, h=h, base=len(pt.log))
+            base = cur["base"]
+            before = bytes(pt.log[base:])
             if case.get("buffered") and backend == "pty":
                 # what is still pending in the display buffer arrives before anything this call makes the terminal do
                 before += bytes(pt.out_display._pending)
@@ -394,7 +423,7 @@ def eval_case(ctx: Ctx, case: dict, stats: bool = False):
                                       "model": b.hex() if isinstance(b, bytes) else b}))
                         model_ok = False
             # ---- F
-            after = bytes(pt.log)
+            after = bytes(pt.log[base:])
             st = spec_term(d, w, h, after)
             true_cur = (st["cx"], st["cy"])
             if backend == "tmux":
@@ -747,11 +776,93 @@ def structured(w, h):
     return out
 
 
+RESIZE_PAIRS = [((20, 10), (40, 20)), ((40, 20), (20, 10)), ((80, 24), (10, 5)), ((10, 5), (80, 24)), ((2, 2), (1, 1)), ((1, 1), (3, 300)),
+                ((300, 3), (3, 300)), ((3, 300), (300, 3)), ((80, 24), (80, 24)), ((80, 24), (100, 24)), ((80, 24), (80, 30)),
+                ((80, 24), (60, 30))]
+
+
+def structured_resize():
+    """The window is resized between calls: `resize` = TIOCSWINSZ to the new size, then reset() (RIS).  Every use the
+    object makes of the terminal size (clamping of tracked moves on all four sides, the pending-wrap test of a queried
+    position, clipping / scrolling of a forced-placeholder put, reset by scrolling) must follow the CURRENT size."""
+    out = []
+    ID = 0x040203
+    R0 = {"op": "reset", "rbs": False}
+    for (w, h), (w2, h2) in RESIZE_PAIRS:
+        rz = {"op": "resize", "w": w2, "h": h2}
+        back = {"op": "resize", "w": w, "h": h}
+        mw, mh = max(w, w2), max(h, h2)
+        nw, nh = min(w, w2), min(h, h2)
+
+        def case(name, ops, **kw):
+            out.append(dict({"w": w, "h": h, "name": name, "ops": ops}, **kw))
+
+        case("resize-abs", [R0, {"op": "mva", "col": w - 1, "row": h - 1}, rz, {"op": "mva", "col": w2 - 1, "row": h2 - 1},
+                            {"op": "mv", "left": 1, "up": 1}, {"op": "mva", "col": mw + 3, "row": mh + 3}, {"op": "mv", "left": 1}, {"op": "getposT"}])
+        case("resize-rel", [R0, {"op": "mv", "right": w + 5, "down": h + 5}, rz, {"op": "mv", "right": mw + 5}, {"op": "mv", "down": mh + 5},
+                            {"op": "mv", "left": 1, "up": 1}, {"op": "getposT"}])
+        case("resize-old-corner", [R0, {"op": "mv", "right": 1}, rz, {"op": "mva", "col": w - 1, "row": h - 1}, {"op": "mv", "right": 1},
+                                   {"op": "mv", "down": 1}, {"op": "getposT"}, {"op": "mv", "left": 1}])
+        case("resize-first-use", [rz, {"op": "mva", "col": w2 - 1, "row": h2 - 1}, {"op": "mv", "right": 1, "down": 1}, {"op": "mv", "left": 1}])
+        case("resize-twice", [R0, {"op": "mva", "col": w - 1, "row": h - 1}, rz, {"op": "mva", "col": w2 - 1, "row": h2 - 1}, back,
+                              {"op": "mva", "col": mw, "row": mh}, {"op": "mv", "left": 1, "up": 1}, {"op": "getposT"}])
+        case("resize-pending-wrap", [R0, {"op": "write", "hex": (b"x" * w).hex()}, {"op": "getpos"}, rz, {"op": "write", "hex": (b"x" * w2).hex()},
+                                     {"op": "getpos"}, {"op": "mv"}, {"op": "mv", "left": 1}, {"op": "write", "hex": (b"x" * nw).hex()},
+                                     {"op": "getpos"}, {"op": "mv", "left": 1}])
+        case("resize-reset-by-scrolling", [R0, {"op": "mv", "down": 1}, rz, {"op": "write", "hex": b"abc\r\n".hex()}, {"op": "reset", "rbs": True},
+                                           {"op": "mv", "right": 2, "down": 1}, {"op": "getposT"}])
+        k = 0
+        for C in (None, True):
+            for (x, y, pc, pr) in [(max(0, w2 - 2), max(0, h2 - 2), 4, 3), (max(0, nw - 1), max(0, nh - 1), 3, 2), (0, 0, mw, 1),
+                                   (0, 0, 2, min(mh, 30)), (max(0, w - 1), max(0, h - 1), 2, 2)]:
+                k += 1
+                case("resize-put", [R0, {"op": "mva", "col": w - 1, "row": h - 1}, rz, {"op": "mva", "col": x, "row": y},
+                                    {"op": "put", "id": ID + 0x10000 * k, "pid": 0, "rows": pr, "cols": pc, "C": C}, {"op": "getposT"},
+                                    {"op": "mv", "left": 1, "up": 1}])
+        case("resize-send", [R0, {"op": "mv", "right": w + 1, "down": h + 1}, rz, {"op": "mva", "col": max(0, w2 - 2), "row": max(0, h2 - 1)},
+                             {"op": "send", "kind": "put", "virtual": None, "force": True, "id": ID, "pid": None, "rand": 4242, "rows": 2, "cols": 3,
+                              "C": None}, {"op": "getposT"}], force=True)
+        case("resize-buffered", [R0, {"op": "mv", "right": 1}, {"op": "write", "hex": b"ab".hex()}, rz, {"op": "mva", "col": w2 - 1, "row": h2 - 1}, {"op": "getpos"},
+                                 {"op": "mv", "right": 1, "down": 1}], buffered=True)
+    return out
+
+
+RESIZE_SIZES = SIZES + [(20, 10), (40, 20), (5, 3), (81, 25), (79, 23)]
+
+
+def random_resize(rng):
+    """a random history in 2..5 segments, the window resized (and reset) between them; ops drawn for the size in force"""
+    w, h = rng.choice(RESIZE_SIZES)
+    case = {"w": w, "h": h, "name": "random-resize", "force": rng.random() < 0.3}
+    ops = []
+    if rng.random() < 0.6:
+        ops.append({"op": "reset", "rbs": rng.random() < 0.3})
+    k = 0
+    nseg = rng.choice([2, 2, 3, 4, 5])
+    for seg in range(nseg):
+        for _ in range(rng.choice([1, 2, 4, 8, 12])):
+            ops.append(gen_op(rng, w, h, k))
+            k += 1
+        if seg < nseg - 1:
+            w, h = rng.choice(RESIZE_SIZES) if rng.random() < 0.7 else (max(1, w + rng.choice([-1, 1, 0])), max(1, h + rng.choice([-1, 1, 0])))
+            ops.append({"op": "resize", "w": w, "h": h})
+    case["ops"] = ops[:60]
+    if rng.random() < 0.2:
+        case["buffered"] = True
+    return case
+
+
 def cases(ctx: Ctx):
     rng = ctx.rng
+    # the histories with a resized window draw from their own generator (a function of VERIF_SEED), so that the histories
+    # on a fixed size are the same as before these were added
+    import random as _random
+    rrng = _random.Random(ctx.seed * 1000003 + 16)
     for (w, h) in SIZES:
         for c in structured(w, h):
             yield c
+    for c in structured_resize():
+        yield c
     # buffered display stream distinct from the command stream: unflushed output must not be overtaken by a query
     for (w, h) in [(80, 24), (10, 5)]:
         for pre in ([{"op": "write", "hex": b"abc".hex()}],
@@ -759,7 +870,11 @@ def cases(ctx: Ctx):
                     [{"op": "write", "hex": b"ab\r\ncd".hex()}]):
             yield {"w": w, "h": h, "name": "buffered-query", "force": False, "buffered": True,
                    "ops": [{"op": "reset", "rbs": False}] + list(pre) + [{"op": "getpos"}, {"op": "mv", "right": 1}]}
+    n_random = 0
     while True:
+        n_random += 1
+        if n_random % 4 == 0:
+            yield random_resize(rrng)
         w, h = rng.choice(SIZES)
         n = rng.choice([3, 6, 12, 25, 40, 60])
         ops = [gen_op(rng, w, h, k) for k in range(n)]
@@ -773,8 +888,11 @@ def run(ctx: Ctx):
     ctx.rule = ("a case is a history of <= 60 public calls on one terminal size from {1x1,2x2,80x24,300x3,3x300,10x5}: structured histories "
                 "per mechanism (absolute moves to 0 / beyond the edges, relative moves past every edge and with negative/zero/conflicting "
                 "arguments, placeholder styles, margins set by set_margins and by write, pending-wrap queries, clears, scrolls, both "
-                "resets, every branch of the forced-placeholder put at 6 cursor positions x 9 sizes x C, send_command variants) followed by "
-                "random histories; distinct = canonical JSON; non-trivial = the history leaves the position known after at least one call")
+                "resets, every branch of the forced-placeholder put at 6 cursor positions x 9 sizes x C, send_command variants), histories "
+                "in which the window is RESIZED between calls (op resize = TIOCSWINSZ then reset(): 12 size pairs grow/shrink/mixed/same x "
+                "absolute and relative moves to the old and new corners, first use of the size after the resize, resizing back, "
+                "pending-wrap queries, reset by scrolling, forced-placeholder puts clipped at the new edges, buffered display), followed by "
+                "random histories (every 4th with 1..4 resizes between segments); distinct = canonical JSON; non-trivial = the history leaves the position known after at least one call")
     budget = 105 if ctx.quick else 330
     if CORPUS.is_dir():
         for f in sorted(CORPUS.glob("*.json")):
@@ -815,6 +933,7 @@ def run(ctx: Ctx):
             rng.shuffle(gens)
 
             def tmux_cases():
+                # (histories with a resized window run on the pty backend only)
                 for c in gens:
                     yield c
                 for c in cases(ctx):
@@ -843,4 +962,6 @@ def run(ctx: Ctx):
         "absolute coordinates, scroll counts and margins are non-negative (negative ones make the code emit malformed CSI)",
         "replies to CSI 6 n always arrive (timeouts are not exercised)",
         "placement check (cells) is skipped while scroll margins are set",
+        "a window resize is always followed by reset() (RIS): from there the terminal is a fresh one of the new size (reflow of "
+        "the old screen content on resize is not modelled); positions are judged on the bytes written since that reset",
     ]
